@@ -112,16 +112,23 @@ def run(ctx: Context) -> None:
 
     # ---- R14.3
     with ctx.section('R14.3'):
+        # the one helper both paths write through: the nested function called in the ear loop (whatever it is called)
+        helper = '_add_triangles'
+        if ear is not None:
+            nested = {f.name for f in p.functions.values() if f.parent is td}
+            called = [c.func.id for c in ast.walk(ear) if isinstance(c, ast.Call) and isinstance(c.func, ast.Name) and c.func.id in nested and len(c.args) == 2]
+            if len(set(called)) == 1:
+                helper = called[0]
         if bulk is not None:
             ok = m.has('$batch_polygons = $polygons[$batch]', '$fan = _triangulate_polygons_by_length($batch_polygons)', within=bulk) \
                 or m.has('$fan = _triangulate_polygons_by_length($polygons[$batch])', within=bulk)
             ctx.check('R14.3', ok, "the batch's polygons are gathered with the batch's own index array and fanned together", td, bulk,
                       construct='fan = _triangulate_polygons_by_length(polygons[batch])')
-            lab = m.stmt('for $fi, $tri in zip($batch, $fan):\n    _add_triangles(int($fi), $tri)', within=bulk)
+            lab = m.stmt(f'for $fi, $tri in zip($batch, $fan):\n    {helper}(int($fi), $tri)', within=bulk)
             if lab is None:
                 # the whole batch at once: every face index repeated once per triangle of its fan, fans laid end to end (same order)
-                lab = m.stmt('_add_triangles(numpy.repeat($batch, $fan.shape[1]), $fan.reshape((-1, 3, 2)))', within=bulk) or \
-                    (m.stmt('_add_triangles(numpy.repeat($batch, $per), $fan.reshape((-1, 3, 2)))', within=bulk)
+                lab = m.stmt(f'{helper}(numpy.repeat($batch, $fan.shape[1]), $fan.reshape((-1, 3, 2)))', within=bulk) or \
+                    (m.stmt(f'{helper}(numpy.repeat($batch, $per), $fan.reshape((-1, 3, 2)))', within=bulk)
                      if m.stmt('$per = $fan.shape[1]', within=bulk) is not None else None)
             ctx.check('R14.3', lab is not None, "triangles are labelled by zipping that same index array with the fan result", td, lab or bulk,
                       construct='for face_index, triangles in zip(batch, fan): _add_triangles(int(face_index), triangles)')
@@ -129,14 +136,18 @@ def run(ctx: Context) -> None:
             ctx.check('R14.3', False, "the fan path exists", td, td.node, construct='bulk loop not found')
         if ear is not None:
             m2 = Matcher(ctx, td, m.bind)
-            ok = m2.ordered('$poly = $polygons[$ear_i]', '$ear_tris = _triangulate_concave_polygon($poly)', '_add_triangles(int($ear_i), $ear_tris)', within=ear)
+            ok = m2.ordered('$poly = $polygons[$ear_i]', '$ear_tris = _triangulate_concave_polygon($poly)', f'{helper}(int($ear_i), $ear_tris)', within=ear)
             ctx.check('R14.3', ok, "the ear path triangulates polygons[i] and labels the result with that same i", td, ear,
                       construct='polygon = polygons[i]; triangles = _triangulate_concave_polygon(polygon); _add_triangles(int(i), triangles)')
-        add = p.functions.get(f"{td.qualname}.<locals>._add_triangles")
+        add = p.functions.get(f"{td.qualname}.<locals>.{helper}")
         ctx.need('R14.4', add is not None, "triangulate_dataset writes triangles through one helper", td)
         ma = Matcher(ctx, add)
         fi_p, tri_p = add.params[0], add.params[1]
         ok = ma.ordered(f"$n = len({tri_p})", f"$labels[$cursor:$cursor + $n] = {fi_p}", f"$coords[$cursor:$cursor + $n] = {tri_p}", '$cursor += $n')
+        if not ok:
+            # the same rows named by their end: stop = cursor + len(batch); rows cursor:stop of both arrays; cursor = stop
+            ma = Matcher(ctx, add)
+            ok = ma.ordered(f"$stop = $cursor + len({tri_p})", f"$labels[$cursor:$stop] = {fi_p}", f"$coords[$cursor:$stop] = {tri_p}", '$cursor = $stop')
         ctx.check('R14.3', ok, "labels and coordinates of a batch are written to the same rows, then the cursor advances by the batch size", add, add.node,
                   construct='labels[c:c+n] = face_index; coords[c:c+n] = triangles; c += n')
         labels, coords, cursor = ma.name('labels'), ma.name('coords'), ma.name('cursor')
@@ -168,13 +179,23 @@ def run(ctx: Context) -> None:
             for k, v in zip(df[0].args[0].keys, df[0].args[0].values):
                 inner = v.args[0] if isinstance(v, ast.Call) and v.args and (callee(ctx, td, v) or '').endswith('Series') else v
                 cols[const_value(k, None)] = inner
-        lab_col = [k for k, v in cols.items() if isinstance(v, ast.Name) and v.id == labels]
+        tflow5 = ctx.flow(td)
+
+        def named(node, target) -> bool:
+            # the array itself or a plain alias of it
+            if not isinstance(node, ast.Name):
+                return False
+            if node.id == target:
+                return True
+            made = [st_.value for st_ in td.node.body if isinstance(st_, ast.Assign) and len(st_.targets) == 1 and isinstance(st_.targets[0], ast.Name) and st_.targets[0].id == target]
+            return len(made) == 1 and tflow5.resolve(node) is made[0]
+        lab_col = [k for k, v in cols.items() if named(v, labels)]
         okc = len(lab_col) == 1
         vertex_cols = {}
         for k, v in cols.items():
             if k in lab_col:
                 continue
-            if isinstance(v, ast.Subscript) and isinstance(v.value, ast.Name) and v.value.id == coords and isinstance(v.slice, ast.Tuple) and len(v.slice.elts) == 3 \
+            if isinstance(v, ast.Subscript) and named(v.value, coords) and isinstance(v.slice, ast.Tuple) and len(v.slice.elts) == 3 \
                     and isinstance(v.slice.elts[0], ast.Slice):
                 vertex_cols[k] = (const_value(v.slice.elts[1], None), const_value(v.slice.elts[2], None))
             else:
